@@ -122,7 +122,7 @@ Record ev := mkEv { ev_num : N; ev_size : N; ev_sel : bool }.
 Record cfg := mkCfg {
   tx : N;                  (* MAX_EXCHANGE_TX_BUF_SIZE *)
   reserve_sz : N;          (* LONG_READS_TLV_RESERVE_SIZE *)
-  sub : option N;          (* Some w: reply carries a subscription id of width w *)
+  sub_w : option N;          (* Some w: reply carries a subscription id of width w *)
   suppress : bool;         (* suppress_last_resp *)
   has_attrs : bool;        (* the request has an attribute-requests field *)
   has_events : bool;       (* the request has an event-requests field *)
@@ -167,7 +167,7 @@ Definition start_reply (c : cfg) (s : st) : option st :=
   if reserve_sz c <=? tx c then
     let s0 := mkSt [] (tx c - reserve_sz c) (reserve_sz c) (fresh s) (seen s) (out s) in
     do s1 <- put TStruct s0;
-    match sub c with
+    match sub_w c with
     | Some w => put (TSubId w) s1
     | None => Some s1
     end
